@@ -194,7 +194,12 @@ def run_one(cfg):
         r2 = float(np.asarray((opts["gp_radius"] * eff) ** 2).reshape(-1)[0])
         outU, outY = np.asarray(U).tolist(), np.asarray(Yo).reshape(-1).tolist()
         outS = None if S2 is None else np.asarray(S2).reshape(-1).tolist()
-        m = C.monitor_selection(X, Y, S, xmax, dist, r2, o, outU, outY, outS, int(optim_state["ntrain"]), nf)
+        m = None
+        if dm.shape[0] == xmax + 1 and not np.any(np.asarray(optim_state.get("periodic_vars", False))):
+            # "nearest ... in the GP's length-scaled metric": the distances used are those of the logged rows to the centre handed in
+            m = C.metric_check(X[:xmax + 1], u, gp.temporary_data["len_scale"], dm)
+            stats["metric_checked"] = stats.get("metric_checked", 0) + 1
+        m = m or C.monitor_selection(X, Y, S, xmax, dist, r2, o, outU, outY, outS, int(optim_state["ntrain"]), nf)
         if m:
             bad(m[0], m[1], f"selection {k} (func_count {function_logger.func_count})")
         nontrivial = len(outU) < xmax + 1
